@@ -4,6 +4,9 @@ Families:
   expr   random expression trees over all operators / kinds, copying, reflected and in-place forms
   triple exhaustive (operator, left kind, right kind) on fixed polynomials
   value  the four value functions with dict / list / tuple assignments
+  equalfn  the same function built by two different expression trees (algebraic identities, for both
+           families and every model type): the two real results must compare equal with `==`, and the
+           two model results must hold the same terms (T5.4, equal functions => equal dicts)
 """
 import itertools, json
 from fractions import Fraction
@@ -14,7 +17,8 @@ CEXT = "plain"
 RULE = ("expression trees (depth<=4) over + - * ** unary+- / and copy-constructors, leaves from the ten model "
         "types, raw dicts (unsorted/repeated labels) and numbers (int, Fraction, dyadic float), plus every "
         "(operator,left kind,right kind) triple; a case is non-trivial when its tree contains a binary operator "
-        "whose two operands both have >=1 term; distinct = distinct (tree, realisation) JSON")
+        "whose two operands both have >=1 term; distinct = distinct (tree, realisation) JSON; plus pairs of trees "
+        "that denote the same function by a ring / idempotence / spin-square identity (equalfn)")
 ASSUMPTIONS = ["float coefficients are restricted to dyadic rationals so IEEE arithmetic is exact"]
 
 BOOL_KINDS = ["QUBO", "PUBO", "PCBO", "QUBOMatrix", "PUBOMatrix"]
@@ -453,6 +457,120 @@ def value_oracle(case, out):
             return "%s_value gives %s at %s, direct evaluation gives %s" % (case["f"], out[idx], bits, want)
     return None
 
+# ------------------------------------------------------------------ equalfn family
+
+def _m(k, p): return {"t": "mdl", "k": k, "p": p}
+def _b(op, a, b): return {"t": op, "a": a, "b": b, "inplace": False}
+def _num(c): return {"t": "num", "c": c}
+
+def equalfn_templates(fam):
+    """name -> (max number of model factors in any product, builder(a, b, c, v) -> (tree1, tree2)); `v` is a
+    single-variable model.  Every pair is an identity of functions on the family's assignments."""
+    T = {
+        "distrib": (2, lambda a, b, c, v: (_b("mul", _b("add", a, b), c),
+                                           _b("add", _b("mul", b, c), _b("mul", a, c)))),
+        "square": (2, lambda a, b, c, v: ({"t": "pow", "a": _b("sub", a, b), "e": 2, "inplace": False},
+                                          _b("add", _b("sub", _b("mul", a, a), _b("mul", _b("mul", _num("2"), a), b)),
+                                             _b("mul", b, b)))),
+        "commute": (2, lambda a, b, c, v: (_b("mul", a, b), _b("mul", b, a))),
+        "negsub": (1, lambda a, b, c, v: ({"t": "neg", "a": _b("sub", a, b)}, _b("sub", b, a))),
+        "half": (1, lambda a, b, c, v: ({"t": "div", "a": _b("add", a, b), "c": "2", "inplace": False},
+                                        _b("add", {"t": "div", "a": b, "c": "2", "inplace": False},
+                                           {"t": "div", "a": a, "c": "2", "inplace": False}))),
+        "rsub": (1, lambda a, b, c, v: (_b("sub", _num("3/2"), a), {"t": "neg", "a": _b("sub", a, _num("3/2"))})),
+        "cancel": (1, lambda a, b, c, v: (_b("add", a, _b("sub", b, b)), {"t": "pos", "a": a})),
+        "cube": (3, lambda a, b, c, v: ({"t": "pow", "a": a, "e": 3, "inplace": False},
+                                        _b("mul", a, _b("mul", a, a)))),
+        "assoc": (3, lambda a, b, c, v: (_b("mul", _b("mul", a, b), c), _b("mul", a, _b("mul", b, c)))),
+        "rawdistrib": (2, lambda a, b, c, v: (_b("mul", _b("add", a, {"t": "raw", "p": b["p"]}), c),
+                                              _b("add", _b("mul", a, c), _b("mul", {"t": "raw", "p": b["p"]}, c)))),
+    }
+    if fam == "bool":
+        T["idem"] = (2, lambda a, b, c, v: (_b("mul", _b("mul", a, v), v), _b("mul", a, v)))
+    else:
+        T["idem"] = (2, lambda a, b, c, v: (_b("mul", _b("mul", a, v), v), {"t": "pos", "a": a}))
+    return T
+
+def equalfn_poly(rng, n, maxdeg):
+    terms = []
+    for _ in range(rng.randint(1, 4)):
+        ln = rng.randint(0, maxdeg)
+        key = [rng.randrange(n) for _ in range(ln)]          # raw keys: unsorted, labels may repeat
+        terms.append([key, gen_coef(rng)])
+    return terms
+
+def equalfn_cases(rng, reps):
+    out = []
+    for fam, kinds in (("bool", BOOL_KINDS), ("spin", SPIN_KINDS)):
+        T = equalfn_templates(fam)
+        for name in sorted(T):
+            width, build = T[name]
+            for ka in kinds:
+                for _ in range(reps):
+                    if width > 2:
+                        if ka in DEG2:
+                            continue                  # a triple product of degree-2 types may legitimately overflow
+                        pool = [k for k in kinds if k not in DEG2]
+                    else:
+                        pool = kinds
+                    kb, kc = rng.choice(pool), rng.choice(pool)
+                    deg2 = bool({ka, kb, kc} & DEG2)
+                    n = rng.randint(2, 5)
+                    maxdeg = 1 if deg2 else rng.choice([1, 2, 3])
+                    a, b, c = (_m(k, equalfn_poly(rng, n, maxdeg)) for k in (ka, kb, kc))
+                    v = _m(rng.choice(kinds), [[[rng.randrange(n)], "1"]])
+                    t1, t2 = build(a, b, c, v)
+                    uses_matrix = bool((tree_kinds(t1, set()) | tree_kinds(t2, set())) & MATRIX)
+                    out.append({"family": "equalfn", "template": name, "fam": fam, "n": n, "t1": t1, "t2": t2,
+                                "labels": "int" if uses_matrix else rng.choice(Labels.STYLES),
+                                "num": rng.choice(["int", "frac"])})
+    return out
+
+def process_equalfn(ctx, cases):
+    subs = []
+    for c in cases:
+        for t in (c["t1"], c["t2"]):
+            subs.append({"family": "equalfn", "fam": c["fam"], "n": c["n"], "tree": t, "labels": c["labels"],
+                         "num": c["num"]})
+    models = common.run_driver([{"op": "expr", "tree": strip(sc["tree"])} for sc in subs])
+    impls = [run_impl(sc) for sc in subs]
+    for i, c in enumerate(cases):
+        ctx.case(c, True)
+        ctx.traces += 1
+        res = []
+        for j in (2 * i, 2 * i + 1):
+            canon, obj, log = impls[j]
+            mm = {k: v for k, v in models[j].items() if k != "order"}
+            if canon != mm:
+                ctx.diff("equalfn", subs[j], canon, mm)
+            bad = oracle(subs[j], canon, obj, log)
+            if bad:
+                ctx.violation("C05:equalfn", subs[j], bad)
+            res.append((canon, obj, mm))
+        (c1, o1, m1), (c2, o2, m2) = res
+        # the premise, straight from the two trees: same value at every assignment of the family
+        spin = c["fam"] == "spin"
+        same = True
+        for bits in itertools.product((0, 1), repeat=c["n"]):
+            xs = {k: Fraction((1 - 2 * b) if spin else b) for k, b in enumerate(bits)}
+            if den(c["t1"], xs) != den(c["t2"], xs):
+                same = False
+                break
+        if not same:
+            ctx.notes.append("equalfn template %s produced trees that are not the same function" % c["template"])
+            ctx.count("equalfn:BROKEN-TEMPLATE")
+            continue
+        if "err" in c1 or "err" in c2:
+            ctx.count("equalfn:%s:err" % c["template"])
+            continue
+        ctx.count("equalfn:%s:%s" % (c["template"], c["fam"]))
+        if "terms" in m1 and "terms" in m2 and m1["terms"] != m2["terms"]:
+            ctx.diff("equalfn-model", c, m1, m2)        # would contradict equal_functions_equal_dicts
+        if not (o1 == o2 and o2 == o1 and not (o1 != o2) and dict(o1) == dict(o2)):
+            ctx.violation("C05:equalfn", c,
+                          "two expression trees denoting the same function gave models that do not compare equal: "
+                          "%r vs %r" % (c1["terms"], c2["terms"]))
+
 # ------------------------------------------------------------------ driver of the check
 
 def expr_case(rng, depth=None):
@@ -533,6 +651,14 @@ def strip(t):
     return u
 
 def process(ctx, cases):
+    eq = [c for c in cases if c["family"] == "equalfn" and "t1" in c]
+    cases = [c for c in cases if not (c["family"] == "equalfn" and "t1" in c)]
+    if cases:
+        process_plain(ctx, cases)
+    if eq:
+        process_equalfn(ctx, eq)        # after the older families, so their reports keep their order
+
+def process_plain(ctx, cases):
     lines, impls = [], []
     for c in cases:
         if c["family"] == "value":
@@ -567,6 +693,7 @@ def check(ctx):
     cases = triple_cases()
     cases += [expr_case(rng) for _ in range(ctx.scale(1500, 20000))]
     cases += [value_case(rng) for _ in range(ctx.scale(400, 4000))]
+    cases += equalfn_cases(rng, ctx.scale(3, 30))      # generated last: the earlier streams are unchanged
     process(ctx, cases)
     if ctx.diffs and not ctx.violations:
         search(ctx)
